@@ -34,9 +34,9 @@ ASSUMPTIONS = [
     "ORG is never generated while the phase offset of the active segment is non-zero: the manual says the "
     "argument of ORG 'always is the load address', the pinned tree takes it as an execution address "
     "(load counter = argument - phase offset); the property does not settle it",
-    "ALIGN n is only generated when the phase offset of the active segment is a multiple of n (load and "
-    "execution address are then aligned alike; the manual only speaks of 'the program counter'; asl aligns "
-    "the execution address)",
+    "ALIGN n aligns the program counter the program sees, i.e. the execution address under PHASE (manual: "
+    "'aligns the program counter'; changelog 1.42 Bld 133: 'ALIGN uses execution instead of load address as "
+    "base'); phase offsets that are no multiple of n are generated",
     "segment counters, phase offsets and phase stacks belong to the segment, not to the CPU: a CPU statement "
     "switches to CODE (documented) and leaves every counter as it is; CODE addresses are kept inside the "
     "range of every CPU of the program's profile",
@@ -248,7 +248,7 @@ class Gen:
             self.push(dict(k="rorg", d=v))
         elif k == "align":
             here = m.here()
-            cand = [n for n in ALIGNS if m.phase() % n == 0 and here + (-here % n) - here <= room]
+            cand = [n for n in ALIGNS if here + (-here % n) - here <= room]
             n = d.choice(cand)      # 1 is always a candidate
             op = dict(k="align", n=n)
             if (-here % n) <= 64 and not chance(d, 2, 3):
